@@ -258,6 +258,9 @@ func LibFrame(stack string) string {
 			}
 			line = strings.TrimPrefix(line, libPrefix)
 			line = strings.TrimPrefix(line, "/")
+			if strings.HasPrefix(line, ".") {
+				line = "kmip" + line
+			}
 			// strip closure suffixes such as .func1.2
 			for {
 				j := strings.LastIndex(line, ".")
